@@ -190,6 +190,9 @@ func (e *Exec) scalar(v Val) string {
 		return e.reify(v)
 	}
 	if v.Clo != nil {
+		if fn, ok := v.Clo.Fn.(*ssa.Function); ok {
+			return e.funcSym(FuncKey(fn))
+		}
 		return e.Out.Declare(fmt.Sprintf("fn$%p", v.Clo.Fn), SInt)
 	}
 	if v.Tup != nil {
@@ -904,4 +907,10 @@ func (e *Exec) runDeferSet(fr *Frame, d deferred, st *State, g string) {
 	for k, v := range merged.H {
 		st.H[k] = v
 	}
+}
+
+// funcSym is the constant standing for a function value (distinct positive constants per function are not needed:
+// contracts only compare a function value with itself).
+func (e *Exec) funcSym(key string) string {
+	return e.Out.Declare("fn$"+key, SInt)
 }
